@@ -206,6 +206,8 @@ class Session:
         self.world0 = world
         self.sim = None
         self.sim_hook = None
+        self.local_connect = None  # callable(cls, hostname, port, attempts) -> Client, when a (virtual) worker pool exists
+        self.connect_attempts = []
         self.file_hook = None  # file_hook(event, path): event in open/write/close on state files opened for writing by gwf
         self.touch_events = []
         self.clock = world.clock()
@@ -334,6 +336,17 @@ class Session:
             for m in (gb, gc, gco, gu):
                 m.open = open_proxy
                 patched.append(m)
+        import gwf.backends.local as gl
+
+        saved_connect = gl.Client.__dict__["connect"]
+        if self.local_connect is not None:
+            gl.Client.connect = classmethod(self.local_connect)
+        else:
+            def _refuse(cls, hostname="localhost", port=12345, attempts=20, _s=self):
+                _s.connect_attempts.append((hostname, port))
+                raise ConnectionRefusedError("no worker pool in this world")
+
+            gl.Client.connect = classmethod(_refuse)
         os.chdir(cwd or self.proj)
         _AUDIT["events"] = []
         _AUDIT["on"] = True
@@ -349,6 +362,7 @@ class Session:
             root.setLevel(saved_level)
             click._compat.isatty = saved_isatty
             bu.subprocess, bu.shutil = saved_sub, saved_sh
+            gl.Client.connect = saved_connect
             for m in patched:
                 del m.open
         self.touch_events += list(_AUDIT["events"])
